@@ -1,4 +1,6 @@
 #!/bin/sh
-# regenerate AvroModel.lean (root import list) from the files present
+# regenerate AvroModel.lean: the root imports the model (Basic, Generated, Spec, Impl); lemma and
+# theorem modules are built individually through the library's glob (they are independent
+# developments and may reuse helper names)
 cd "$(dirname "$0")"
-find AvroModel -name '*.lean' | sort | sed 's/\.lean$//; s#/#.#g; s/^/import /' > AvroModel.lean
+find AvroModel/Basic AvroModel/Generated AvroModel/Spec AvroModel/Impl -name '*.lean' | sort | sed 's/\.lean$//; s#/#.#g; s/^/import /' > AvroModel.lean
